@@ -622,16 +622,16 @@ class RootPath(Path):
         return str(self.path)
 
     def evaluate(self, context: FilterContext) -> object:
-        return NodeList(
-            self.path.finditer(context.root, filter_context=context.extra_context)
-        )
+        # The root has been loaded already. If it is a string, it is a JSON
+        # string, not JSON text to be parsed again.
+        return NodeList(self.path._finditer(context.root, context.extra_context))
 
     async def evaluate_async(self, context: FilterContext) -> object:
         return NodeList(
             [
                 match
-                async for match in await self.path.finditer_async(
-                    context.root, filter_context=context.extra_context
+                async for match in await self.path._finditer_async(
+                    context.root, context.extra_context
                 )
             ]
         )
